@@ -292,6 +292,27 @@ def run(ctx):
                     if all(any(b.dominates(lb, d_[0]) or lb == d_[0] for lb in lit_blocks) or
                            any(contains_call(dd, lambda n: n.endswith("get_emoji_by_emoticon")) for (dd, pp, ss) in guards_of(b, d_[0])) for d_ in trues):
                         continue
+            # the same flag kept as a private two-variant enum (`typed == TypedText::Missing`): every assignment of the *other* variant must stand
+            # right after the typed text was pushed as the emoticon literal
+            if d.k == "bin" and d.a[0] in ("Eq", "Ne") and pol in (True, False):
+                sides = [strip_refs(d.a[1]), strip_refs(d.a[2])]
+                flag_side = [x for x in sides if x.k == "discr" and strip_refs(x.a[0]).k in ("phi", "local", "agg") and not (strip_refs(x.a[0]).k == "agg")]
+                const_side = [x for x in sides if x.k == "discr" and strip_refs(x.a[0]).k == "agg" and not strip_refs(x.a[0]).a[1]]
+                if len(flag_side) == 1 and len(const_side) == 1:
+                    kept_name = str(strip_refs(const_side[0].a[0]).a[0])                      # adt:path::Variant the candidate is offered under …
+                    adt_ = kept_name[4:].rsplit("::", 1)[0]
+                    a_ = prog.adts.get(adt_)
+                    offered_when_equal = (pol is True) == (d.a[0] == "Eq")
+                    if a_ and len(a_["variants"]) == 2 and not any(v_["fields"] for v_ in a_["variants"]) and a_.get("vis") != "pub" and offered_when_equal:
+                        others = []
+                        for (i_, j_, st_) in b.stmts():
+                            if st_["k"] == "assign" and not st_["place"]["p"] and st_["rv"]["k"] == "aggregate" and st_["rv"].get("adt") == adt_ \
+                                    and "adt:%s::%s" % (adt_, st_["rv"].get("variant")) != kept_name:
+                                others.append(i_)
+                        lit_blocks = [q.outer_bb for q in events if q.fn == p.fn and q.item is not None and classify_source(prog, q) in ("emoticon-literal", "emoji")]
+                        if others and all(any(b.dominates(lb, o_) or lb == o_ for lb in lit_blocks) or
+                                          any(contains_call(dd, lambda n: n.endswith("get_emoji_by_emoticon")) for (dd, pp, ss) in guards_of(b, o_)) for o_ in others):
+                            continue
             extra.append((d, pol))
         key = "english-guards@%s" % p.fn.split("::")[-1]
         if extra:
